@@ -319,7 +319,22 @@ type c20Set struct {
 
 func c20Family(r *mon.Rand) []c20Set {
 	var fam []c20Set
-	switch r.Intn(5) {
+	switch r.Intn(6) {
+	case 5: // two value sets a few ulps apart whose bit patterns add up to the same sum: one bound one ulp up, another one ulp down
+		n := r.Range(2, 6)
+		base := make([]float64, n)
+		for i := range base {
+			base[i] = float64(r.Range(1, 1000)) / []float64{1, 3, 7, 10}[r.Intn(4)]
+		}
+		near := append([]float64(nil), base...)
+		i, j := 0, 1+r.Intn(n-1)
+		k := uint64(r.Range(1, 3))
+		near[i] = math.Float64frombits(math.Float64bits(near[i]) + k)
+		near[j] = math.Float64frombits(math.Float64bits(near[j]) - k)
+		fam = append(fam, c20Set{V: base, Why: "base"}, c20Set{V: near, Why: "one bound a few ulps up, another the same number of ulps down (equal bit-pattern sums)"})
+		if r.Bool() {
+			fam[0], fam[1] = fam[1], fam[0]
+		}
 	case 4: // a set and the same set extended by bounds that add nothing to the additive identity
 		if r.Bool() {
 			base := r.ValueSpec(5)
